@@ -94,8 +94,8 @@ def run(ctx: Ctx):
         "two Einsums: energy/latency of a fused tree = sum of the per-Einsum model values, peak usage = shared-prefix holders + max over branches (checked against the real code whenever a reference mapping is re-evaluated; C04's subject)",
         "throughput `inf` is encoded as 0 (Lean Rat: x / 0 = 0); size `inf` gives usage 0",
     ]
-    n = 28 if ctx.thorough else 7
-    limit = 400_000 if ctx.thorough else 70_000
+    n = 40 if ctx.thorough else 6
+    limit = 600_000 if ctx.thorough else 70_000
     ML.init(1)
     drv = ctx.driver()
     fam = MS.family(ctx, drv, n, limit, MIX_THOROUGH if ctx.thorough else MIX_QUICK)
